@@ -711,7 +711,7 @@ func TestC08String(t *testing.T) {
 }
 
 func TestC08Murmur(t *testing.T) {
-	pbt.Run(t, pbt.Spec{ID: "C08", Sub: "murmur", Quick: 1500, Thorough: 30000,
+	pbt.Run(t, pbt.Spec{ID: "C08", Sub: "murmur", Quick: 1500, Thorough: 20000,
 		Rule: "mycat_murmur vs PartitionByMurmurHash (Guava murmur3_32 hashUnencodedChars, TreeMap tailMap ring): seeds over all int32 incl. 0, -1, MIN, MAX; virtual bucket counts 1-200 and the default; keys as for string; " + ruleText,
 		Floor: 0.5}, genCase("mycat_murmur"), checkCase)
 }
